@@ -43,6 +43,11 @@ FILES = {
     'f:tests.py': ['tests.py'], 'f:test_x.py': ['test_x.py'],
     'f:ftests.py': ['ftests.py'], 'f:other.py': ['other.py'],
     'f:tests.txt': ['tests.txt'],
+    # files whose extension is not ".py" (none at all, a prefix / an
+    # extension of it, other case, a backup file)
+    'f:noext': ['tests', 'ftests.', 'test_x.p'],
+    'f:otherext': ['tests.pyw', 'tests.PY', 'tests.py~', 'tests.pyc'],
+    't:5': ['tests/__init__.py', 'tests/test_a.py', 'tests/test_notes', 'tests/test_b.p', 'tests/test_c.', 'tests/test_d.pyx', 'tests/test_e.py.bak'],
     't:1': ['tests/__init__.py', 'tests/test_a.py', 'tests/testb.py', 'tests/helper.py'],
     't:2': ['tests/test_a.py', 'tests/testb.py', 'tests/helper.py'],
     't:3': ['tests/__init__.py', 'tests/test_a.py', 'tests/sub/test_c.py', 'tests/sub/tests.py'],
@@ -113,10 +118,12 @@ def cases(tier, seed):
             if kinds.count('t') > 1 or kinds.count('p') > 1:
                 continue
             names = [ITEMS[i] for i in combo]
-            if 'f:tests.py' in names and any(n in names for n in ('t:1', 't:3', 't:4')):
+            if 'f:tests.py' in names and any(n in names for n in ('t:1', 't:3', 't:4', 't:5')):
                 # a module and a regular package of the same name in one
                 # directory: Python itself can only import one of them
                 continue
+            if 'f:noext' in names and 't' in kinds:
+                continue              # a file and a directory both named "tests"
             for cfg in worlds.rot(list(CONFIGS), seed):
                 if ('pkg' in str(CONFIGS[cfg].get('paths', '')) or 's' in CONFIGS[cfg]
                         or 'package_path' in CONFIGS[cfg]) and 'p' not in kinds:
@@ -127,6 +134,16 @@ def cases(tier, seed):
                     continue
                 for od in orders:
                     yield [list(combo), cfg, od]
+
+
+def history_cases(tier):
+    """runs that differ in the list-valued options they use (ignore_dir,
+    -s, -m, patterns, search paths): every ordered pair in one process"""
+    ix = ITEMS.index
+    return [[[ix('p:1')], 'ignore_pkg', 'id'], [[ix('p:1')], 'default', 'id'],
+            [[ix('p:4')], 's_pkg_inner', 'id'], [[ix('t:1'), ix('p:1')], 'm_pos', 'id'],
+            [[ix('t:4'), ix('p:4')], 'tp_ftests', 'id'], [[ix('t:1'), ix('p:1')], 'fp_testb', 'id'],
+            [[ix('p:1')], 'pkg_path', 'id'], [[ix('t:1'), ix('p:1')], 'm_neg', 'id']]
 
 
 class _OsProxy:
